@@ -39,15 +39,17 @@ type fakeNode struct {
 	links []*format.Link
 }
 
-func (n *fakeNode) Resolve([]string) (interface{}, []string, error) { return nil, nil, errors.New("n/a") }
-func (n *fakeNode) Tree(string, int) []string                       { return nil }
+func (n *fakeNode) Resolve([]string) (interface{}, []string, error) {
+	return nil, nil, errors.New("n/a")
+}
+func (n *fakeNode) Tree(string, int) []string { return nil }
 func (n *fakeNode) ResolveLink([]string) (*format.Link, []string, error) {
 	return nil, nil, errors.New("n/a")
 }
-func (n *fakeNode) Copy() format.Node              { return n }
-func (n *fakeNode) Links() []*format.Link          { return n.links }
+func (n *fakeNode) Copy() format.Node               { return n }
+func (n *fakeNode) Links() []*format.Link           { return n.links }
 func (n *fakeNode) Stat() (*format.NodeStat, error) { return &format.NodeStat{}, nil }
-func (n *fakeNode) Size() (uint64, error)          { return uint64(len(n.RawData())), nil }
+func (n *fakeNode) Size() (uint64, error)           { return uint64(len(n.RawData())), nil }
 
 type fakeGetter map[string]*fakeNode
 
@@ -678,12 +680,12 @@ func genC01(g *mon.G) {
 
 func init() {
 	Register(&mon.Check{
-		ID:    "C01",
-		Level: "exploration",
-		Rule: "cases = seeded (content, option configuration) pairs; each content goes through every applicable writer (blockstore Put/PutMany, storage WriterAt/io.Writer/ReadableWritable, deferred path/stream, root-module walker writer, WrapV1) and each distinct output through every reader (v2 BlockReader on 3 source kinds, v2 Reader, root CarReader, root LoadCar slow+batch, ReadOnly blockstore, readable storage); non-trivial = the de-duplicated content has ≥ 2 blocks; distinct = distinct descriptor",
+		ID:          "C01",
+		Level:       "exploration",
+		Rule:        "cases = seeded (content, option configuration) pairs; each content goes through every applicable writer (blockstore Put/PutMany, storage WriterAt/io.Writer/ReadableWritable, deferred path/stream, root-module walker writer, WrapV1) and each distinct output through every reader (v2 BlockReader on 3 source kinds, v2 Reader, root CarReader, root LoadCar slow+batch, ReadOnly blockstore, readable storage); non-trivial = the de-duplicated content has ≥ 2 blocks; distinct = distinct descriptor",
 		Assumptions: []string{"reference codec refcar is correct (cross-checked against go-car on benign inputs by construction of this very check)", "honest blocks only: hashes computed by Go stdlib/x-crypto"},
-		Gen:   genC01,
-		Run:   runC01,
+		Gen:         genC01,
+		Run:         runC01,
 		MinCover: map[string]int{
 			"writer:blockstore.ReadWrite/Put": 50, "writer:storage.NewWritable/io.Writer": 10, "writer:deferred.ForStream": 10,
 			"writer:root.WriteCarWithWalker": 50, "writer:v2.WrapV1": 50,
